@@ -72,45 +72,13 @@ theorem aval_ge_of_nz (a : Decimal) (hnz : NZ a) (hnd : 1 ≤ a.nd) : (10 : ℚ)
     _ ≤ (val a.d a.nd : ℚ) * 10 ^ (a.dp - (a.nd : ℤ)) := mul_le_mul_of_nonneg_right h1q hp.le
 
 set_option maxRecDepth 100000 in
-/-- **the rounding part of `floatBits`**: for an exact decimal `a` holding the value scaled by `2^(52 - exp)`, with the
-    exponent in range and the mantissa below `2^53` (at least `2^52` unless the exponent is the smallest one),
-    `finish` returns what `Spec.roundRat` returns -/
-theorem finish_spec (a : Decimal) (exp : ℤ) (hg : Good a) (hnd : 1 ≤ a.nd) (htr : a.trunc = false) (n d : ℕ) (hn : n ≠ 0) (hd : d ≠ 0)
-    (hx : (n : ℚ) / d = aval a * 2 ^ (exp - 52)) (hexp1 : -1022 ≤ exp) (hexp2 : exp ≤ 1023)
-    (hlt : aval a < 2 ^ 53) (hnorm : -1022 < exp → 2 ^ 52 ≤ aval a) :
+/-- the rounding part of `floatBits`, from what `RoundedInteger` returned: if that is the round-half-even of the value's
+    quotient and remainder class at `2^(exp-52)`, `finish` returns what `Spec.roundRat` returns -/
+theorem finish_core (a : Decimal) (exp : ℤ) (n d : ℕ) (hn : n ≠ 0) (hd : d ≠ 0) (q c : ℕ)
+    (hri : a.roundedInteger = roundHalfEven q c)
+    (hqx : IsQ ((n : ℚ) / d) (exp - 52) q) (hcx : IsC ((n : ℚ) / d) (exp - 52) q c)
+    (hq53 : q < 2 ^ 53) (hq52 : -1022 < exp → 2 ^ 52 ≤ q) (hexp1 : -1022 ≤ exp) (hexp2 : exp ≤ 1023) :
     roundRat a.neg n d = a.finish exp := by
-  -- the decimal point is within the first 16 digits
-  have hdp : a.dp ≤ 19 := by
-    by_contra hcon
-    have h1 := aval_ge_of_nz a hg.nz hnd
-    have h2 : (10 : ℚ) ^ (19 : ℤ) ≤ 10 ^ (a.dp - 1) := zpow_le_zpow_right₀ (by norm_num) (by omega)
-    have h3 : (2 : ℚ) ^ 53 < 10 ^ (19 : ℤ) := by norm_num
-    linarith
-  obtain ⟨q, c, hq, hc, hri⟩ := roundedInteger_spec a hg.wf hg.tm htr hdp
-  have hpe := two_zpow_pos (exp - 52)
-  simp only [IsQ, zpow_zero, mul_one] at hq
-  -- quotient and remainder class of the value itself
-  have hqx : IsQ ((n : ℚ) / d) (exp - 52) q := by
-    rw [hx]
-    exact ⟨mul_le_mul_of_nonneg_right hq.1 hpe.le, mul_lt_mul_of_pos_right hq.2 hpe⟩
-  have hcx : IsC ((n : ℚ) / d) (exp - 52) q c := by
-    rw [hx]
-    rcases hc with ⟨rfl, h1⟩ | ⟨rfl, h1, h2⟩ | ⟨rfl, h1⟩ | ⟨rfl, h1⟩
-    · left; simp only [zpow_zero, mul_one] at h1; exact ⟨rfl, by rw [h1]⟩
-    · right; left; simp only [zpow_zero, mul_one] at h1 h2
-      exact ⟨rfl, mul_lt_mul_of_pos_right h1 hpe, mul_lt_mul_of_pos_right h2 hpe⟩
-    · right; right; left; simp only [zpow_zero, mul_one] at h1; exact ⟨rfl, by rw [h1]⟩
-    · right; right; right; simp only [zpow_zero, mul_one] at h1
-      exact ⟨rfl, mul_lt_mul_of_pos_right h1 hpe⟩
-  have hq53 : q < 2 ^ 53 := by
-    have : (q : ℚ) < 2 ^ 53 := lt_of_le_of_lt hq.1 hlt
-    exact_mod_cast this
-  have hq52 : -1022 < exp → 2 ^ 52 ≤ q := by
-    intro hh
-    have h1 := hnorm hh
-    have : (2 : ℚ) ^ 52 < (q : ℚ) + 1 := lt_of_le_of_lt h1 hq.2
-    have h2 : (2 ^ 52 : ℕ) < q + 1 := by exact_mod_cast this
-    omega
   obtain ⟨r1, r2⟩ := rhe_bounds' q c
   -- unfold the code
   have hm : Gen.fpMantBits = 52 := rfl
@@ -212,5 +180,46 @@ theorem finish_spec (a : Decimal) (exp : ℤ) (hg : Good a) (hnd : 1 ≤ a.nd) (
       rw [he1] at this
       rw [this]
       norm_num
+
+/-- **the rounding part of `floatBits`**: for an exact decimal `a` holding the value scaled by `2^(52 - exp)`, with the
+    exponent in range and the mantissa below `2^53` (at least `2^52` unless the exponent is the smallest one),
+    `finish` returns what `Spec.roundRat` returns -/
+theorem finish_spec (a : Decimal) (exp : ℤ) (hg : Good a) (hnd : 1 ≤ a.nd) (htr : a.trunc = false) (n d : ℕ) (hn : n ≠ 0) (hd : d ≠ 0)
+    (hx : (n : ℚ) / d = aval a * 2 ^ (exp - 52)) (hexp1 : -1022 ≤ exp) (hexp2 : exp ≤ 1023)
+    (hlt : aval a < 2 ^ 53) (hnorm : -1022 < exp → 2 ^ 52 ≤ aval a) :
+    roundRat a.neg n d = a.finish exp := by
+  -- the decimal point is within the first 16 digits
+  have hdp : a.dp ≤ 19 := by
+    by_contra hcon
+    have h1 := aval_ge_of_nz a hg.nz hnd
+    have h2 : (10 : ℚ) ^ (19 : ℤ) ≤ 10 ^ (a.dp - 1) := zpow_le_zpow_right₀ (by norm_num) (by omega)
+    have h3 : (2 : ℚ) ^ 53 < 10 ^ (19 : ℤ) := by norm_num
+    linarith
+  obtain ⟨q, c, hq, hc, hri⟩ := roundedInteger_spec a hg.wf hg.tm htr hdp
+  have hpe := two_zpow_pos (exp - 52)
+  simp only [IsQ, zpow_zero, mul_one] at hq
+  -- quotient and remainder class of the value itself
+  have hqx : IsQ ((n : ℚ) / d) (exp - 52) q := by
+    rw [hx]
+    exact ⟨mul_le_mul_of_nonneg_right hq.1 hpe.le, mul_lt_mul_of_pos_right hq.2 hpe⟩
+  have hcx : IsC ((n : ℚ) / d) (exp - 52) q c := by
+    rw [hx]
+    rcases hc with ⟨rfl, h1⟩ | ⟨rfl, h1, h2⟩ | ⟨rfl, h1⟩ | ⟨rfl, h1⟩
+    · left; simp only [zpow_zero, mul_one] at h1; exact ⟨rfl, by rw [h1]⟩
+    · right; left; simp only [zpow_zero, mul_one] at h1 h2
+      exact ⟨rfl, mul_lt_mul_of_pos_right h1 hpe, mul_lt_mul_of_pos_right h2 hpe⟩
+    · right; right; left; simp only [zpow_zero, mul_one] at h1; exact ⟨rfl, by rw [h1]⟩
+    · right; right; right; simp only [zpow_zero, mul_one] at h1
+      exact ⟨rfl, mul_lt_mul_of_pos_right h1 hpe⟩
+  have hq53 : q < 2 ^ 53 := by
+    have : (q : ℚ) < 2 ^ 53 := lt_of_le_of_lt hq.1 hlt
+    exact_mod_cast this
+  have hq52 : -1022 < exp → 2 ^ 52 ≤ q := by
+    intro hh
+    have h1 := hnorm hh
+    have : (2 : ℚ) ^ 52 < (q : ℚ) + 1 := lt_of_le_of_lt h1 hq.2
+    have h2 : (2 ^ 52 : ℕ) < q + 1 := by exact_mod_cast this
+    omega
+  exact finish_core a exp n d hn hd q c hri hqx hcx hq53 hq52 hexp1 hexp2
 
 end RJson.Dec
